@@ -26,6 +26,7 @@
   model, no Mathlib).
 -/
 import Algobra.Proofs.CodeTies4
+import Algobra.Proofs.CodeTies4Fact
 import Algobra.Props.CodeTies2
 
 namespace Algobra
@@ -155,6 +156,53 @@ theorem bin_trace_tie_composed {n m a : Nat} (hn : n ≤ 63) :
 example : (3 : Nat) < 2 ^ 64 := by decide
 example : go_binfield_Element_Trace_core 3 (Bin.pow 3 11) 3 (fun x y => x ^^^ y) 3 = 1 := by
   decide +kernel
+
+/-! ### 4. `auxmath.Factorize` -/
+
+/-- THE TIE: for every word `n` and EVERY recursion fuel, the translated function returns the two
+    projections of the model's list of `(prime, exponent)` pairs (both sides spend one unit of fuel per
+    recursive call and are empty when it is used up).  All translated loops run on `loopFuel`; its
+    sufficiency is proved inside (division loops: at most 64 rounds; `p = 2, 3`: two rounds; the
+    `k = 6, 12, …` scan: `k - 1 ≤ BoundSqrt(n) ≤ 2^32`, so `k + 1`, `k + 6` never wrap). -/
+theorem factorize_tie (fuel : Nat) {n : Nat} (hn : n < 2 ^ 64) :
+    go_auxmath_Factorize fuel n
+      = ((Auxmath.factorize fuel n).map Prod.fst, (Auxmath.factorize fuel n).map Prod.snd) :=
+  CodeTies4Proofs.factorize fuel hn
+
+/-- the model does not depend on its fuel from 64 on (each level at least halves `n`) -/
+theorem factorize_model_fuel {fuel n : Nat} (hf : 64 ≤ fuel) (hn : n < 2 ^ 64) :
+    Auxmath.factorize fuel n = Auxmath.factorize 64 n :=
+  CodeTies4Proofs.Fuel.factorize_fuel_64 hf hn
+
+/-- … hence neither does the translated function: recursion fuel 64 is sufficient for every word -/
+theorem factorize_go_fuel {fuel n : Nat} (hf : 64 ≤ fuel) (hn : n < 2 ^ 64) :
+    go_auxmath_Factorize fuel n = go_auxmath_Factorize 64 n := by
+  rw [factorize_tie fuel hn, factorize_tie 64 hn, factorize_model_fuel hf hn]
+
+/-- what a translated caller gets (calls of a recursive function pass `loopFuel`), against the fuel 64
+    used by the model's callers (`Prime.multGenerator`, …) -/
+theorem factorize_tie_loopFuel {n : Nat} (hn : n < 2 ^ 64) :
+    go_auxmath_Factorize loopFuel n
+      = ((Auxmath.factorize 64 n).map Prod.fst, (Auxmath.factorize 64 n).map Prod.snd) := by
+  rw [factorize_tie loopFuel hn, factorize_model_fuel (by decide) hn]
+
+/-- the list of prime factors used by `primefield.(*Field).MultGenerator` -/
+theorem factorize_tie_factors {n : Nat} (hn : n < 2 ^ 64) :
+    (go_auxmath_Factorize loopFuel n).1 = (Auxmath.factorize 64 n).map (·.1) := by
+  rw [factorize_tie_loopFuel hn]
+
+example : (360 : Nat) < 2 ^ 64 := by decide
+/-- (the right-hand sides are evaluated in the model; evaluating the translated function itself in the
+    kernel is possible but takes minutes because of the nested `loopFuel` recursions) -/
+example : go_auxmath_Factorize 64 360 = ([2, 3, 5], [3, 2, 1]) := by
+  rw [factorize_tie 64 (by decide)]; decide +kernel
+example : go_auxmath_Factorize loopFuel (7 * 7 * 11 * 13) = ([7, 11, 13], [2, 1, 1]) := by
+  rw [factorize_tie_loopFuel (by decide)]; decide +kernel
+example : go_auxmath_Factorize loopFuel 0 = ([0], [1]) ∧ go_auxmath_Factorize loopFuel 1 = ([], []) := by
+  rw [factorize_tie_loopFuel (by decide), factorize_tie_loopFuel (by decide)]; decide +kernel
+/-- with too little fuel both sides stop early in the same way -/
+example : go_auxmath_Factorize 2 (7 * 7 * 11 * 13) = ([7, 11], [2, 1]) := by
+  rw [factorize_tie 2 (by decide)]; decide +kernel
 
 end CodeTies4
 end Algobra
